@@ -451,8 +451,12 @@ func New(tree ast.Tree, root string, logger logger.Logger) (*SpokFile, error) {
 func expandGlob(root, pattern string) ([]string, error) {
 	var matches []string
 	ignoreHiddenGlobFn := func(path string, d fs.DirEntry) error {
+		// Hidden files and directories (and root itself, which a '**' also matches as ".")
+		// are left out of the matches. Note this must not return filepath.SkipDir: for anything
+		// but a directory found by a '**' that makes doublestar give up on the rest of the
+		// directory, so every file sorting after a hidden one would be lost too
 		if strings.HasPrefix(path, ".") {
-			return filepath.SkipDir
+			return nil
 		}
 
 		abs, err := filepath.Abs(filepath.Join(root, path))
